@@ -24,7 +24,7 @@ RULE = (
     "program from the co2 grammar; optionally every flow gets a prologue assigning rich variables ($s set, $rx regex, $d dict with an int and "
     "a str key, $n nested containers) and 0-4 statements using them are inserted at drawn positions (send the value, index the dict by its "
     "int key, match with the regex, start an action with a set argument, start an action with a dict variable as argument and match its Finished event through a dict literal); history of 2-24 items; up to 3 drawn cut points x mode in "
-    "{save, age, both, every (a round trip before each later event), every-age (round trip + 6 s idle before each later event)}; 3 of 14 generated cases run the shipped library (core, timing, avatars; generator shared with C09) with 1-2 cuts; 2 of 14 run a fixed program with state-dependent system actions (CheckValidFlowExistsAction, CheckFlowDefinedAction, CheckForActiveEventMatchAction, AddFlowsAction / RemoveFlowsAction of a dynamic flow) through the real RuntimeV2_x.process_events over generated histories (also enumerated: all histories of length 3 over five events); 1 of 14 is an LLMRails conversation (vf.pipeline Colang 2.x configuration: rails, dialog flows, `llm continuation`) of 2-4 turns in which the State object is handed back live vs. the JSON state returned by generate() (modes save, both = + 6 s idle per turn, rewind = an older snapshot restored on the same instance). Non-trivial = at the cut at least one child flow is running and a reference-typed or container variable is live "
+    "{save, age, both, every (a round trip before each later event), every-age (round trip + 6 s idle before each later event)}; 3 of 14 generated cases run the shipped library (core, timing, avatars; generator shared with C09) with 1-2 cuts; 2 of 14 run the real RuntimeV2_x.process_events: a fixed program with state-dependent system actions (CheckValidFlowExistsAction, CheckFlowDefinedAction, CheckForActiveEventMatchAction, AddFlowsAction / RemoveFlowsAction of a dynamic flow) through the real RuntimeV2_x.process_events over generated histories (also enumerated: all histories of length 3 over five events); 1 of 14 is an LLMRails conversation (vf.pipeline Colang 2.x configuration: rails, dialog flows, `llm continuation`) of 2-4 turns in which the State object is handed back live vs. the JSON state returned by generate() (modes save, both = + 6 s idle per turn, rewind = an older snapshot restored on the same instance). Non-trivial = at the cut at least one child flow is running and a reference-typed or container variable is live "
     "(save), or a finished instance older than the threshold exists (age); distinct by (program, history, cut, mode). "
     "Two further dimensions of the state-machine cases (each drawn for about 1 in 3, labels mixed-* / shared-*): (a) mdict - a dict whose keys are of MIXED kinds "
     "(1-5 unique keys from strings, ints, a float, False, None, a tuple; a STRING key first in 2 of 3 and a non-string key somewhere behind it; one value may itself be a "
@@ -48,7 +48,12 @@ RULE = (
     "(e) scope (about 1 in 6; labels scope-*) - an OPEN SCOPE THAT OUTLIVES A FLOW STARTED INSIDE IT: an and-group of 2-3 flows c11m<i> (each ends before its first wait / after one / after two occurrences of a drawn event) as a when-case "
     "(`when a and b` with no / an event / a flow `or when` alternative), as `await a and b`, as `await a and b` inside the branch of a when, or as `await (a and b) or c`, followed by sends and optionally one more wait, placed at a drawn position of a drawn flow; "
     "3 of 4 of these cases in an ageing mode. Label cut-with-ended-flow-in-open-scope = at a cut an open scope of a running flow lists a flow instance that has ended. "
-    "Enumerated (the two new families first): non-finite floats (3 values x {computed, received} x every placement, kind of read rotating x every cut x save, partly every-age / both / every); open scopes (4 shapes x {no, event, flow alternative} x 3 orders of the members' events "
+    "(f) regex-from-outside (1 in 3 of the runtime-leg cases without non-finite parameters; labels regex-from-outside / rx-*) - a COMPILED REGEX WHOSE FLAGS ARE NOT PART OF THE PATTERN (re.compile(pattern, flags); Colang's regex(\"...\") can only "
+    "write flags inline): 11 pattern rows (IGNORECASE, DOTALL, MULTILINE, VERBOSE, the pairs and the triple, controls without flags and with an inline flag), each with a text matched only thanks to the flags (T0), a text matched anyway (T1) and a text never matched (T2); "
+    "the pattern enters the flow as the return value of a registered custom action (C11PatternAction) or as the parameter of a received event, is kept as a flow variable / inside a list / a nested dict / a global / the argument of a started flow / only through the reference to the received event, "
+    "and is used in a loop as an event-parameter match (`match Probe(v=$p)`), as the final_transcript of UtteranceUserAction.Finished, or in `if search($p, $m.v)`; history = 0-2 items, Arm, 2-8 items from {T0 x3, T1, T2, Other, Arm, age}, 1-3 cuts, 3 of 4 in a saving mode. "
+    "Label cut-with-flagged-regex-held-then-flag-dependent-text = a saving cut lies after the pattern was obtained and a T0 text follows it. "
+    "Enumerated (the regex-from-outside family first: every pattern row x {action, event} x 2 histories, placement / use / mode rotating, every cut; then): non-finite floats (3 values x {computed, received} x every placement, kind of read rotating x every cut x save, partly every-age / both / every); open scopes (4 shapes x {no, event, flow alternative} x 3 orders of the members' events "
     "with other events in between x every cut x {age, every-age}, partly both); runtime-leg histories with non-finite event parameters (3 values x 3 histories x every cut x {save, every-age}); every rich use x 2 positions x every cut x 4 modes; flow references (5 ways of obtaining the reference x 4 ways the referenced flow ends x 1-2 waits before the read, member / place of the read / parameter value "
     "rotating, second read one event later x every cut x two of {age, every-age, both, save}); activated flows restarting (single activator); two-activator programs (activator kinds finish / abort / stopped / tidy squared x "
     "0-2 deactivations by a third flow x helper tails x all orders of the three events x every cut x age, partly every-age); mixed-key dicts (string key first then int / float / bool / None / tuple key, "
@@ -65,6 +70,7 @@ ASSUMPTIONS = [
     "an awaited flow that aborts fails the awaiting flow, so the aborting tail is not combined with `await ... as $ref` (nothing would be read afterwards)",
     "non-finite floats are legitimate Colang values (Python float arithmetic of the expression evaluator; event parameters are arbitrary JSON-like payloads); what an expression over them yields is not asserted - both runs execute the same program; outputs holding nan are compared through repr since nan != nan",
     "flow groups in when / await (`when a and b`, `await (a and b) or c`) are documented in docs/colang_2/language_reference/defining-flows.rst (Flow Grouping: `await a and b`, brackets) and flow-control.rst (`when` / `or when` with flows and groups); the oracle does not depend on their semantics",
+    "a re.Pattern is a legitimate state value whatever its origin (the state encoder has a regex case that records pattern AND flags; action results and event parameters are arbitrary Python values; eval's search() and the event-parameter comparison accept compiled patterns): the oracle only compares the live with the restored run, it does not assert which texts match",
     "`deactivate X` is the documented statement (docs/colang_2/language_reference/more-on-flows.rst, = send StopFlow(flow_id=X, deactivate=True)); the oracle does not depend on what it does - both runs execute the same program",
 ]
 WALL = {"quick": 170, "thorough": 1500}
@@ -691,14 +697,93 @@ RT_EVENTS = ["Query", "Go", "Go2", "Restart", "Second", "Add", "RunDyn", "DynGo"
 _rt = {}
 
 
-def _rt_rails():
-    if "rails" not in _rt:
+def _rt_rails(rx=None):
+    key = "rails" if rx is None else "rails:" + json.dumps(rx, sort_keys=True)
+    if key not in _rt:
         from nemoguardrails import LLMRails, RailsConfig
         from vf import pipeline
 
         pipeline.loop()
-        _rt["rails"] = LLMRails(RailsConfig.from_content(RT_PROGRAM, 'colang_version: "2.x"\nmodels: []'))
-    return _rt["rails"]
+        _rt[key] = LLMRails(RailsConfig.from_content(RT_PROGRAM if rx is None else _rx_program(rx), 'colang_version: "2.x"\nmodels: []'))
+        if rx is not None:
+            _rt[key].register_action(_rx_pattern_action, "C11PatternAction")
+    return _rt[key]
+
+
+# A compiled regex whose flags are NOT written in the pattern (re.compile(pattern, flags)): Colang's regex("...") cannot produce one, a
+# custom action's return value or an event parameter can. [pattern, flag names, text matched only thanks to the flags, text matched with
+# and without them, text never matched]. The last two rows are controls (no flag / the flag written inline).
+RX_FLAGS = {"I": re.IGNORECASE, "S": re.DOTALL, "M": re.MULTILINE, "X": re.VERBOSE}
+RX_TABLE = [
+    ["hello", "I", "HELLO there", "say hello", "bye"],
+    ["a.b", "S", "a\nb", "a-b", "ab"],
+    ["^b$", "M", "a\nb", "b", "ab"],
+    ["^x.y$", "IS", "X\nY", "x-y", "xy"],
+    ["^k.l$", "MS", "j\nk\nl\nm", "k-l", "kl"],
+    ["^end$", "IM", "the\nEND", "end", "ending"],
+    ["c d", "X", "cd", "cd", "c d"],
+    ["^[q-s]u # tail", "IX", "Qu", "ru", "tu"],
+    ["^o.p$", "IMS", "n\nO\nP", "o-p", "op"],
+    ["plain", "", "plain", "plain", "PLAIN"],
+    ["(?i)inline", "", "INLINE", "inline", "outline"],
+]
+RX_SRC = ["action", "event"]  # returned by a custom action | parameter of a received event (planted by the harness)
+RX_PLACE = {
+    # where the pattern is kept: [statements after `$p = ...`, expression that reads it]
+    "var": [[], "$p"],
+    "list": [["$box = [1, $p]"], "$box[1]"],
+    "dict": [['$box = {"k": {"r": $p}}'], '$box["k"]["r"]'],
+    "global": [["global $c11rx", "$c11rx = $p"], "$c11rx"],
+    "flowarg": [[], "$q"],
+    "event-ref": [[], "$e.p"],  # only the reference to the received event is kept (src event)
+}
+RX_USE = ["match", "search", "match-action"]
+RX_EVENTS = ["T0", "T1", "T2", "Other", "Arm"]
+
+
+def _rx_flags(names):
+    f = 0
+    for c in names:
+        f |= int(RX_FLAGS[c])
+    return f
+
+
+def _rx_pattern_action(pattern, flags):
+    return re.compile(pattern, flags)
+
+
+def _rx_program(rx):
+    pat, names = RX_TABLE[rx["pat"]][:2]
+    pro, read = RX_PLACE[rx["place"]]
+    if rx["use"] == "match":
+        loop = [f"match Probe(v={read}) as $m", "send Hit(v=$m.v)"]
+    elif rx["use"] == "match-action":
+        loop = [f"match UtteranceUserAction.Finished(final_transcript={read}) as $m", "send Hit(v=$m.final_transcript)"]
+    else:
+        loop = ["match Probe() as $m", f"if search({read}, $m.v)", "  send Hit(v=$m.v)", "else", "  send NoHit(v=$m.v)"]
+    get = "$p = $e.p" if rx["src"] == "event" else f"$p = await C11PatternAction(pattern={json.dumps(pat)}, flags={_rx_flags(names)})"
+    if rx["place"] == "flowarg":
+        return "\n".join(["flow c11rxuser $q", "  while True"] + ["    " + ln for ln in loop] + ["", "flow main", "  match Begin()", "  match Arm() as $e", "  " + get, "  send Armed()", "  await c11rxuser $p", ""])
+    return "\n".join(["flow main", "  match Begin()", "  match Arm() as $e", "  " + get] + ["  " + ln for ln in pro] + ["  send Armed()", "  while True"] + ["    " + ln for ln in loop] + [""])
+
+
+def _rx_event(rx, name):
+    row = RX_TABLE[rx["pat"]]
+    if name == "Arm":
+        return {"type": "Arm", "p": re.compile(row[0], _rx_flags(row[1]))} if rx["src"] == "event" else {"type": "Arm"}
+    if name in ("T0", "T1", "T2"):
+        text = row[2 + int(name[1])]
+        if rx["use"] == "match-action":
+            return {"type": "UtteranceUserActionFinished", "final_transcript": text}
+        return {"type": "Probe", "v": text}
+    return {"type": name}
+
+
+@st.composite
+def _rx(draw):
+    rx = {"pat": draw(st.integers(0, len(RX_TABLE) - 1)), "src": draw(st.sampled_from(RX_SRC)), "use": draw(st.sampled_from(RX_USE))}
+    rx["place"] = draw(st.sampled_from(sorted(set(RX_PLACE) - ({"event-ref"} if rx["src"] == "action" else set()))))
+    return rx
 
 
 @st.composite
@@ -711,6 +796,15 @@ def _rt_case(draw):
         # every received event carries a non-finite float parameter: the runtime keeps the received events in the state (last_events),
         # the watcher flow keeps the Ev0 event in a variable and sends its parameter
         case["nfv"] = nfv
+    elif draw(st.integers(0, 2)) == 1:
+        # a compiled regex with out-of-pattern flags enters a flow variable (action result / event parameter), is kept in a drawn placement
+        # and is used after the cut on texts whose match depends on the flags
+        case["rx"] = draw(_rx())
+        probes = st.sampled_from(["T0", "T0", "T0", "T1", "T2", "Other", "Arm", "age"])
+        case["hist"] = draw(st.lists(probes, max_size=2)) + ["Arm"] + draw(st.lists(probes, min_size=2, max_size=8))
+        case["cuts"] = sorted(draw(st.lists(st.integers(1, len(case["hist"]) - 1), min_size=1, max_size=3, unique=True)))
+        if draw(st.integers(0, 3)) > 0:
+            case["mode"] = draw(st.sampled_from(["save", "save", "both", "every", "every-age"]))
     return case
 
 
@@ -721,7 +815,8 @@ def _rt_run(case, cut, mode):
     smh.install()
     smh.CHOOSER.reset([])
     smh.Clock.virtual = 0.0
-    rails = _rt_rails()
+    rx = case.get("rx")
+    rails = _rt_rails(rx)
     lp = pipeline.loop()
     # AddFlowsAction writes into the flow-config dict that a fresh State shares with the runtime object; every run starts from the
     # configured flows (conversations influencing each other through one instance is C15's subject, not this one's)
@@ -750,6 +845,8 @@ def _rt_run(case, cut, mode):
                 ev["v"] = i
             if case.get("nfv"):
                 ev["v"] = NF_VALUES[case["nfv"]]
+            if rx:
+                ev = _rx_event(rx, name)
             try:
                 out, state = lp.run_until_complete(rails.runtime.process_events([ev], state=state, blocking=True))
             except Exception as e:
@@ -779,9 +876,19 @@ def _rt_prop(case):
             k = next((i for i, (x, y) in enumerate(zip(a, b)) if x != y), min(len(a), len(b)))
             raise Violation(
                 "runtime-diverges-" + case["mode"],
-                f"cut before event #{cut} ({case['mode']}): live continuation emits {a[k] if k < len(a) else 'nothing more'} where the restored/aged one emits {b[k] if k < len(b) else 'nothing more'}; history {case['hist']} (program: vf.props.c11.RT_PROGRAM through RuntimeV2_x.process_events)",
+                f"cut before event #{cut} ({case['mode']}): live continuation emits {a[k] if k < len(a) else 'nothing more'} where the restored/aged one emits {b[k] if k < len(b) else 'nothing more'}; history {case['hist']} (program: {'vf.props.c11._rx_program(' + json.dumps(case['rx']) + '), pattern row ' + json.dumps(RX_TABLE[case['rx']['pat']]) if case.get('rx') else 'vf.props.c11.RT_PROGRAM'} through RuntimeV2_x.process_events)",
             )
     labels = ["runtime-leg", "mode-" + case["mode"]] + (["dynamic-flows"] if dyn else []) + (["runtime-events-with-non-finite-float", "nonfinite-" + case["nfv"]] if case.get("nfv") else [])
+    rx = case.get("rx")
+    if rx:
+        names = RX_TABLE[rx["pat"]][1]
+        labels += ["regex-from-outside", "rx-src-" + rx["src"], "rx-place-" + rx["place"], "rx-use-" + rx["use"], "rx-flags-" + (names or ("inline" if "(?" in RX_TABLE[rx["pat"]][0] else "none"))]
+        h = case["hist"]
+        arm = h.index("Arm")
+        saving = case["mode"] in ("save", "both", "every", "every-age")
+        if names and saving and any(arm < c and "T0" in h[c:] for c in case["cuts"]):
+            labels.append("cut-with-flagged-regex-held-then-flag-dependent-text")
+        return ok(nt="T0" in h[arm:], labels=labels, view={"program": _rx_program(rx), "history": h, "cuts": case["cuts"], "mode": case["mode"]}, counters={"cut_points_compared": compared})
     return ok(nt=len(case["hist"]) >= 4, labels=labels, view={"program": "RT_PROGRAM", "history": case["hist"], "cuts": case["cuts"], "mode": case["mode"]}, counters={"cut_points_compared": compared})
 
 
@@ -857,6 +964,7 @@ def _rails_prop(case):
 def enumerate_cases(tier):
     # small fixed programs x every cut x every mode: one per rich feature
     base_hist = [["ev", 0, None], ["ev", 1, 1], ["finished", 0], ["ev", 2, 1], ["ev", 0, None], ["ev", 1, None], ["ev", 3, None]]
+    yield from _rx_cases()
     yield from _nonfinite_cases()
     yield from _scope_cases()
     for use in sorted(USES):
@@ -978,6 +1086,23 @@ def known(case, violation):
     if involved and violation.kind.startswith("behaviour-diverges-") and "OutAliasL" in violation.msg and case.get("mode") in ("save", "both", "every", "every-age"):
         return "C11-F25"
     return None
+
+
+def _rx_cases():
+    # compiled regexes with out-of-pattern flags: every pattern row x {action result, event parameter} with placement and use rotating,
+    # every cut x save (partly every-age / both)
+    places = sorted(RX_PLACE)
+    n = 0
+    for pat in range(len(RX_TABLE)):
+        for src in RX_SRC:
+            for k in range(2):
+                place = places[n % len(places)]
+                if place == "event-ref" and src == "action":
+                    place = "var"
+                rx = {"pat": pat, "src": src, "use": RX_USE[(n // 2) % len(RX_USE)], "place": place}
+                h = [["Arm", "T0", "T1", "T2", "T0"], ["T0", "Arm", "T2", "Other", "T0", "T1"]][k]
+                yield {"leg": "runtime", "rx": rx, "hist": h, "cuts": list(range(1, len(h))), "mode": ["save", "every-age", "save", "both"][n % 4]}
+                n += 1
 
 
 def _runtime_cases():
